@@ -694,3 +694,224 @@ Proof.
     + destruct m as [|i2 m2]; cbn [flat_map app]; eexists; [right|left]; reflexivity.
     + apply Hrest; [eexists; right; reflexivity|]. cbn [app]. apply L_op; [reflexivity|exact Hl].
 Qed.
+
+(** ** Step C: the token filters, on (type, literal) pairs *)
+
+Definition pair := (ttype * list N)%type.
+Definition ptyl (p : ptok) : pair := (pty p, plit p).
+Definition tyl (te : token * list ecode) : pair := (tty (fst te), tlit (fst te)).
+
+Fixpoint semi2 (flag : bool) (l : list pair) : list pair :=
+  match l with
+  | [] => if flag then [(TSemi, [])] else []
+  | t :: r =>
+      match fst t with
+      | TSemi => t :: semi2 false r
+      | TOperator => t :: semi2 (list_N_eqb (snd t) [125] || list_N_eqb (snd t) [93]) r
+      | TEndl => if flag then (TSemi, [10]) :: semi2 false r else semi2 flag r
+      | TComment => t :: semi2 flag r
+      | TEOF => t :: semi2 flag r
+      | _ => t :: semi2 true r
+      end
+  end.
+
+Definition kw2 (t : pair) : pair :=
+  match fst t with
+  | TIdent => if is_keyword (snd t) then (TKeyword, snd t) else t
+  | _ => t
+  end.
+
+Lemma semi_ins_pairs fin : forall ps flag,
+  map ptyl (semi_ins flag fin ps) = semi2 flag (map ptyl ps).
+Proof.
+  induction ps as [|t r IH]; intros flag; cbn [semi_ins map semi2].
+  - destruct flag; reflexivity.
+  - unfold ptyl at 2. cbn [fst snd]. unfold lit_is.
+    destruct (pty t); cbn [map]; try (now rewrite IH).
+    destruct flag; cbn [map]; now rewrite IH.
+Qed.
+
+Lemma keyword_pairs ps : map ptyl (map keyword_tok ps) = map kw2 (map ptyl ps).
+Proof.
+  induction ps as [|t r IH]; [reflexivity|]. cbn [map]. rewrite IH. f_equal.
+  unfold keyword_tok, kw2, ptyl. cbn [fst snd]. destruct (pty t) eqn:E; cbn [pty plit]; rewrite ?E; try reflexivity.
+  destruct (is_keyword (plit t)); cbn [pty plit]; rewrite ?E; reflexivity.
+Qed.
+
+Lemma with_cum_pairs : forall raw acc, map ptyl (fst (with_cum acc raw)) = map tyl raw.
+Proof.
+  induction raw as [|[t e] raw IH]; intros acc; [reflexivity|]. cbn [with_cum].
+  specialize (IH (add_errs acc e)). destruct (with_cum (add_errs acc e) raw) as [ps fn].
+  cbn [fst map] in *. now rewrite IH.
+Qed.
+
+Definition has_nl (w : list N) : bool := existsb (fun c => c =? 10) w.
+Definition semis (w : list N) : list pair := if has_nl w then [(TSemi, [10])] else [].
+
+Lemma semi2_ws_false w rest : semi2 false (map tyl (wtoks w) ++ rest) = semi2 false rest.
+Proof.
+  induction w as [|c w IH]; [reflexivity|]. cbn [wtoks flat_map]. fold (wtoks w).
+  destruct (c =? 10); cbn [app map]; [|exact IH]. cbn [semi2 tyl tk fst tty]. exact IH.
+Qed.
+
+Lemma semi2_ws_true w c rest :
+  semi2 true (map tyl (wtoks w) ++ (TOperator, [c]) :: rest)
+  = semis w ++ semi2 true ((TOperator, [c]) :: rest).
+Proof.
+  unfold semis. induction w as [|x w IH]; [reflexivity|]. cbn [wtoks flat_map has_nl existsb]. fold (wtoks w) (has_nl w).
+  destruct (x =? 10); cbn [app map orb].
+  - cbn [semi2 tyl tk fst tty]. rewrite semi2_ws_false. reflexivity.
+  - exact IH.
+Qed.
+
+(** The tokens the parser receives: separators where a line end follows a
+    value or a key. *)
+Fixpoint FT (t : jt) : list pair :=
+  match t with
+  | TNull => [(TKeyword, lit_null)]
+  | TBool b => [(TKeyword, if b then lit_true else lit_false)]
+  | TNum u => num_ft u
+  | TStr body => [(TString, 34 :: body)]
+  | TArr0 _ => [(TOperator, [91]); (TOperator, [93])]
+  | TArr f m =>
+      let it := fun i : list N * jt * list N => let '(_, v, w2) := i in FT v ++ semis w2 in
+      (TOperator, [91]) :: it f ++ flat_map (fun i => (TOperator, [44]) :: it i) m ++ [(TOperator, [93])]
+  | TObj0 _ => [(TOperator, [123]); (TOperator, [125])]
+  | TObj f m =>
+      let mt := fun i : list N * list N * list N * list N * jt * list N =>
+                  let '(_, k, w2, _, v, w4) := i in
+                  (TString, 34 :: k) :: semis w2 ++ (TOperator, [58]) :: FT v ++ semis w4 in
+      (TOperator, [123]) :: mt f ++ flat_map (fun i => (TOperator, [44]) :: mt i) m ++ [(TOperator, [125])]
+  end.
+
+Definition it_ft (i : list N * jt * list N) : list pair :=
+  let '(_, v, w2) := i in FT v ++ semis w2.
+Definition mt_ft (i : list N * list N * list N * list N * jt * list N) : list pair :=
+  let '(_, k, w2, _, v, w4) := i in
+  (TString, 34 :: k) :: semis w2 ++ (TOperator, [58]) :: FT v ++ semis w4.
+Lemma FT_arr f m : FT (TArr f m) =
+  (TOperator, [91]) :: it_ft f ++ flat_map (fun i => (TOperator, [44]) :: it_ft i) m ++ [(TOperator, [93])].
+Proof. destruct f as [[w1 v] w2]. reflexivity. Qed.
+Lemma FT_obj f m : FT (TObj f m) =
+  (TOperator, [123]) :: mt_ft f ++ flat_map (fun i => (TOperator, [44]) :: mt_ft i) m ++ [(TOperator, [125])].
+Proof. destruct f as [[[[[w1 k] w2] w3] v] w4]. reflexivity. Qed.
+
+Definition FC (raw : list (token * list ecode)) (out : list pair) : Prop :=
+  forall flag rest, map kw2 (semi2 flag (map tyl raw ++ rest)) = out ++ map kw2 (semi2 true rest).
+
+Lemma semi2_op fl c rest :
+  semi2 fl ((TOperator, [c]) :: rest) = (TOperator, [c]) :: semi2 ((c =? 125) || (c =? 93)) rest.
+Proof. cbn [semi2 fst snd list_N_eqb]. now rewrite !andb_true_r. Qed.
+
+Lemma filter_tree : forall t, FC (rtj t) (FT t).
+Proof.
+  assert (Hclose : forall c rest, (c =? 125) || (c =? 93) = true -> forall fl,
+            map kw2 (semi2 fl ((TOperator, [c]) :: rest)) = (TOperator, [c]) :: map kw2 (semi2 true rest)).
+  { intros c rest Hc fl. rewrite semi2_op, Hc. reflexivity. }
+  induction t as [|b|u|body|w|f m IHf IHm|w|f m IHf IHm] using jt_ind'; intros flag rest.
+  - reflexivity.
+  - destruct b; reflexivity.
+  - cbn [rtj FT].
+    assert (Hone : forall x fl, map kw2 (semi2 fl (map tyl [tk (if num_is_float x then TFloat else TInt) x] ++ rest))
+              = [(if num_is_float x then TFloat else TInt, x)] ++ map kw2 (semi2 true rest)).
+    { intros x fl. cbn [map app tyl tk fst tty tlit]. destruct (num_is_float x); reflexivity. }
+    destruct u as [|c r]; [apply Hone|].
+    destruct (N.eqb_spec c 45) as [->|Hc].
+    + change (num_toks (45 :: r)) with [tk TOperator [45]; tk (if num_is_float r then TFloat else TInt) r].
+      change (num_ft (45 :: r)) with [(TOperator, [45]); (if num_is_float r then TFloat else TInt, r)].
+      change (map tyl [tk TOperator [45]; tk (if num_is_float r then TFloat else TInt) r] ++ rest)
+        with ((TOperator, [45]) :: (map tyl [tk (if num_is_float r then TFloat else TInt) r] ++ rest)).
+      rewrite semi2_op. change ((45 =? 125) || (45 =? 93)) with false.
+      rewrite map_cons, Hone. reflexivity.
+    + rewrite (num_toks_other c r Hc), (num_ft_other c r Hc). apply Hone.
+  - reflexivity.
+  - cbn [rtj FT]. change (map tyl (tk TOperator [91] :: wtoks w ++ [tk TOperator [93]]) ++ rest)
+      with ((TOperator, [91]) :: (map tyl (wtoks w ++ [tk TOperator [93]]) ++ rest)).
+    rewrite semi2_op. change ((91 =? 125) || (91 =? 93)) with false.
+    rewrite map_app, <- app_assoc, semi2_ws_false. cbn [map app].
+    change (tyl (tk TOperator [93])) with (TOperator, [93]).
+    change (tyl (tk TOperator [125])) with (TOperator, [125]).
+    change (kw2 (TOperator, [91])) with (TOperator, [91]).
+    change (kw2 (TOperator, [123])) with (TOperator, [123]). reflexivity.
+  - (* array *)
+    rewrite rtj_arr, FT_arr.
+    assert (Hitem : forall i, FC (rtj (snd (fst i))) (FT (snd (fst i))) ->
+              forall c rest', map kw2 (semi2 false (map tyl (it_toks i) ++ (TOperator, [c]) :: rest'))
+                = it_ft i ++ map kw2 (semi2 true ((TOperator, [c]) :: rest'))).
+    { intros [[w1 v] w2] Hv c rest'. cbn [it_toks it_ft fst snd] in *.
+      rewrite !map_app, <- !app_assoc, semi2_ws_false, (Hv false), semi2_ws_true, map_app.
+      f_equal. f_equal. unfold semis. destruct (has_nl w2); reflexivity. }
+    cbn [map app]. change (tyl (tk TOperator [91])) with (TOperator, [91]).
+    rewrite semi2_op. change ((91 =? 125) || (91 =? 93)) with false.
+    rewrite map_cons. cbn [app]. f_equal. rewrite !map_app, <- !app_assoc.
+    assert (Hrest : forall fl,
+              map kw2 (semi2 fl (map tyl (flat_map (fun i => tk TOperator [44] :: it_toks i) m)
+                                 ++ map tyl [tk TOperator [93]] ++ rest))
+              = flat_map (fun i => (TOperator, [44]) :: it_ft i) m ++ [(TOperator, [93])]
+                  ++ map kw2 (semi2 true rest)).
+    { clear IHf. induction IHm as [|i m' Hi Hm' IHm']; intros fl.
+      - cbn [flat_map map app tyl tk fst tty tlit]. now apply Hclose.
+      - cbn [flat_map map app]. change (tyl (tk TOperator [44])) with (TOperator, [44]).
+        rewrite semi2_op. change ((44 =? 125) || (44 =? 93)) with false. rewrite map_cons. f_equal.
+        rewrite map_app, <- !app_assoc.
+        destruct m' as [|i2 m2].
+        + cbn [flat_map map app tyl tk fst tty tlit]. rewrite (Hitem i Hi 93). f_equal; try reflexivity; now apply Hclose.
+        + cbn [flat_map map app]. change (tyl (tk TOperator [44])) with (TOperator, [44]).
+          rewrite (Hitem i Hi 44). f_equal. specialize (IHm' true).
+          cbn [flat_map map app] in IHm'. change (tyl (tk TOperator [44])) with (TOperator, [44]) in IHm'.
+          rewrite <- ?app_assoc in IHm'. rewrite <- ?app_assoc. exact IHm'. }
+    destruct m as [|i2 m2].
+    + cbn [flat_map map app tyl tk fst tty tlit]. rewrite (Hitem f IHf 93). f_equal; try reflexivity; now apply Hclose.
+    + cbn [flat_map map app]. change (tyl (tk TOperator [44])) with (TOperator, [44]).
+      rewrite (Hitem f IHf 44). f_equal. specialize (Hrest true).
+      cbn [flat_map map app] in Hrest. change (tyl (tk TOperator [44])) with (TOperator, [44]) in Hrest.
+      rewrite <- ?app_assoc in Hrest. rewrite <- ?app_assoc. exact Hrest.
+  - cbn [rtj FT]. change (map tyl (tk TOperator [123] :: wtoks w ++ [tk TOperator [125]]) ++ rest)
+      with ((TOperator, [123]) :: (map tyl (wtoks w ++ [tk TOperator [125]]) ++ rest)).
+    rewrite semi2_op. change ((123 =? 125) || (123 =? 93)) with false.
+    rewrite map_app, <- app_assoc, semi2_ws_false. cbn [map app].
+    change (tyl (tk TOperator [93])) with (TOperator, [93]).
+    change (tyl (tk TOperator [125])) with (TOperator, [125]).
+    change (kw2 (TOperator, [91])) with (TOperator, [91]).
+    change (kw2 (TOperator, [123])) with (TOperator, [123]). reflexivity.
+  - (* object *)
+    rewrite rtj_obj, FT_obj.
+    assert (Hitem : forall i, FC (rtj (snd (fst i))) (FT (snd (fst i))) ->
+              forall c rest', map kw2 (semi2 false (map tyl (mt_toks i) ++ (TOperator, [c]) :: rest'))
+                = mt_ft i ++ map kw2 (semi2 true ((TOperator, [c]) :: rest'))).
+    { intros [[[[[w1 k] w2] w3] v] w4] Hv c rest'. cbn [mt_toks mt_ft fst snd] in *.
+      rewrite !map_app, <- !app_assoc, semi2_ws_false. cbn [map app].
+      change (tyl (mkTok TString (34 :: k), str_errs k)) with (TString, 34 :: k).
+      cbn [semi2 fst]. rewrite map_cons. change (kw2 (TString, 34 :: k)) with (TString, 34 :: k). f_equal.
+      rewrite map_app, <- !app_assoc. cbn [map app]. change (tyl (tk TOperator [58])) with (TOperator, [58]).
+      rewrite semi2_ws_true, map_app. rewrite <- app_assoc.
+      f_equal; [unfold semis; destruct (has_nl w2); reflexivity|].
+      rewrite semi2_op. change ((58 =? 125) || (58 =? 93)) with false. rewrite map_cons. f_equal.
+      rewrite !map_app, <- !app_assoc, semi2_ws_false, (Hv false), semi2_ws_true, map_app.
+      f_equal. f_equal. unfold semis. destruct (has_nl w4); reflexivity. }
+    cbn [map app]. change (tyl (tk TOperator [123])) with (TOperator, [123]).
+    rewrite semi2_op. change ((123 =? 125) || (123 =? 93)) with false.
+    rewrite map_cons. cbn [app]. f_equal. rewrite !map_app, <- !app_assoc.
+    assert (Hrest : forall fl,
+              map kw2 (semi2 fl (map tyl (flat_map (fun i => tk TOperator [44] :: mt_toks i) m)
+                                 ++ map tyl [tk TOperator [125]] ++ rest))
+              = flat_map (fun i => (TOperator, [44]) :: mt_ft i) m ++ [(TOperator, [125])]
+                  ++ map kw2 (semi2 true rest)).
+    { clear IHf. induction IHm as [|i m' Hi Hm' IHm']; intros fl.
+      - cbn [flat_map map app tyl tk fst tty tlit]. now apply Hclose.
+      - cbn [flat_map map app]. change (tyl (tk TOperator [44])) with (TOperator, [44]).
+        rewrite semi2_op. change ((44 =? 125) || (44 =? 93)) with false. rewrite map_cons. f_equal.
+        rewrite map_app, <- !app_assoc.
+        destruct m' as [|i2 m2].
+        + cbn [flat_map map app tyl tk fst tty tlit]. rewrite (Hitem i Hi 125). f_equal; try reflexivity; now apply Hclose.
+        + cbn [flat_map map app]. change (tyl (tk TOperator [44])) with (TOperator, [44]).
+          rewrite (Hitem i Hi 44). f_equal. specialize (IHm' true).
+          cbn [flat_map map app] in IHm'. change (tyl (tk TOperator [44])) with (TOperator, [44]) in IHm'.
+          rewrite <- ?app_assoc in IHm'. rewrite <- ?app_assoc. exact IHm'. }
+    destruct m as [|i2 m2].
+    + cbn [flat_map map app tyl tk fst tty tlit]. rewrite (Hitem f IHf 125). f_equal; try reflexivity; now apply Hclose.
+    + cbn [flat_map map app]. change (tyl (tk TOperator [44])) with (TOperator, [44]).
+      rewrite (Hitem f IHf 44). f_equal. specialize (Hrest true).
+      cbn [flat_map map app] in Hrest. change (tyl (tk TOperator [44])) with (TOperator, [44]) in Hrest.
+      rewrite <- ?app_assoc in Hrest. rewrite <- ?app_assoc. exact Hrest.
+Qed.
